@@ -526,6 +526,15 @@ struct CInputVptr {
 };
 struct CInput { const CInputVptr *vptr; };
 
+// id length of the stream scenarios: one byte; values below 0xc0 give 1..8 exactly as the former range(1,8) did (saved
+// inputs keep their meaning), 0xc0..0xff a wide id of 9..255 bytes (255 = what mpt_stream_input() and the uint8_t
+// outdata._idlen permit; ids that wide are opaque tokens, not numbers written by mpt_message_id2buf)
+static size_t draw_idlen(Ctx &c) {
+  size_t b = c.range(0, 255);
+  if (b < 0xc0) return b % 8 + 1;
+  return std::max<size_t>(c.near({9, 12, 16, 17, 32, 255}, 255), 9);
+}
+
 struct StreamWorld {
   Ctx &c;
   int cfd = -1;
@@ -618,7 +627,7 @@ struct StreamWorld {
     closed = false;
   }
   void open_connection() {
-    idlen = c.range(1, 8);
+    idlen = draw_idlen(c);
     dialect = ref::Cobs;
     con = constore;
     con->out.sock._id = -1;
@@ -653,7 +662,7 @@ struct StreamWorld {
     }
   }
   void open() {
-    idlen = c.range(1, 8);
+    idlen = draw_idlen(c);
     bool inl = c.chance(80);
     dialect = inl ? ref::CobsR : ref::Cobs;
     int sv[2];
@@ -752,6 +761,17 @@ struct StreamWorld {
         else if (s.kind == KRequest && s.replies == 1) c.label(s.reply_body.empty() ? "conn:discard-empty-reply" : "conn:discard-other-reply");
         continue;
       }
+      if (!con && s.kind == KReplyType) {  // a reply whose id needs more than 64 bit is refused, not dispatched ("values that do not fit are refused")
+        size_t lead = 0;
+        std::vector<uint8_t> v = s.id;
+        v[0] &= 0x7f;
+        while (lead < v.size() && !v[lead]) ++lead;
+        if (v.size() - lead > 8) {
+          if (s.delivered) note(a, 6, "stream-delivery", "reply-type message " + std::to_string(i) + " with an id of " + std::to_string(v.size() - lead) + " significant bytes was dispatched");
+          else c.label("stream:oversized-reply-id-refused");
+          continue;
+        }
+      }
       if (s.delivered != 1) { note(a, 6, "stream-delivery", "message " + std::to_string(i) + " (" + s.payload + ") was delivered to the handler " + std::to_string(s.delivered) + " times"); continue; }
       if (s.garbled) note(a, 6, "stream-delivery", "message " + std::to_string(i) + " reached the handler with a different payload");
       if (s.kind != KRequest) continue;
@@ -817,6 +837,11 @@ static void stream_history(Ctx &c, bool connection = false) {
       s.id.assign(w.idlen, 0);
       if (s.kind != KOneWay) {
         s.id = c.bytes(w.idlen);
+        if (w.idlen > 8) {  // wide ids are tokens: random bytes, or a single non-zero byte far from the end (new draw, wide ids only)
+          size_t style = c.pick(3);
+          if (style) { uint8_t b = s.id[0] | 1; s.id.assign(w.idlen, 0); s.id[style == 1 ? 0 : c.range(0, w.idlen - 2)] = b; c.label("stream:sparse-token"); }
+          c.label("stream:wide-id");
+        }
         s.id[w.idlen - 1] = (uint8_t)(idx + 1);
         s.id[0] &= 0x7f;
         if (s.kind == KReplyType) s.id[0] |= 0x80;
@@ -967,7 +992,7 @@ struct SyncWorld;
 struct SyncArg { SyncWorld *w; size_t index; };
 struct SyncWorld {
   struct Cmd { uintptr_t id; unsigned calls = 0; bool eol = false; std::vector<size_t> frames; };
-  struct Frame { uintptr_t id; std::string payload; unsigned delivered = 0; std::vector<size_t> to; };
+  struct Frame { uintptr_t id; std::string payload; int result = 0; unsigned delivered = 0; std::vector<size_t> to; };
   std::vector<Cmd> cmds;  // cmds[0] = fallback
   std::vector<Frame> frames;
   std::vector<SyncArg> args;
@@ -984,7 +1009,8 @@ struct SyncWorld {
     unsigned idx = 0;
     if (n < 5 || buf[0] != 'r' || buf[4] != ';' || sscanf(buf + 1, "%3u", &idx) != 1 || idx >= w->frames.size() || w->frames[idx].payload != std::string(buf, n)) ++w->garbled;
     else { ++w->frames[idx].delivered; w->frames[idx].to.push_back(a->index); cmd.frames.push_back(idx); }
-    return ++w->total_calls > w->budget ? -1 : 0;  // bounds the loop of a requester that keeps re-reading a message
+    if (++w->total_calls > w->budget) return -1;  // bounds the loop of a requester that keeps re-reading a message
+    return idx < w->frames.size() ? w->frames[idx].result : 0;  // what the reply handler makes of this reply (drawn)
   }
 };
 static void sync_history(Ctx &c) {
@@ -1030,13 +1056,15 @@ static void sync_history(Ctx &c) {
       snprintf(head, sizeof head, "r%03zu;", w.frames.size());
       f.payload = head;
       for (size_t n = c.range(0, 20); n; n--) f.payload += (char)('a' + c.pick(26));
+      f.result = c.chance(90) ? -(int)c.range(1, 5) : (int)c.range(0, 2);  // the handler that gets this reply may reject it
+      if (f.result < 0) c.label("sync:handler-rejects");
       std::vector<uint8_t> data(idlen, 0);
       data[idlen - 1] = (uint8_t)f.id;
       data[0] |= 0x80;
       data.insert(data.end(), f.payload.begin(), f.payload.end());
       std::vector<uint8_t> enc = ref::encode(ref::Cobs, data.data(), data.size());
       VP_CHECK(c, write(peer.fd, enc.data(), enc.size()) == (ssize_t)enc.size(), "harness-write", "peer write failed");
-      c.logf("peer sends reply id %zu payload '%s'", (size_t)f.id, f.payload.c_str());
+      c.logf("peer sends reply id %zu payload '%s' (its handler will return %d)", (size_t)f.id, f.payload.c_str(), f.result);
       w.frames.push_back(f);
     }
     w.budget = w.total_calls + (unsigned)k + 2;
